@@ -215,7 +215,7 @@ def check(case):
            ["free 15", "read 15 1 %s" % tiny, "read 14 1 %s" % tiny, "run 15 2 5 -1 -1 -1", "run 14 2 5 -1 -1 -1", "compare 15 14", "free 15", "free 14"]
     sp = wd.write(runner.seqset_bytes(["ACGTAC", "ACGAAC"]), ".seqs")
     warm.append("arr %s 8 5 -1 -1 -1" % sp)
-    hp = runner.run_probe(warm + ["heapmark"] + prog + ["heapmark"], variant="plain")
+    hp = runner.run_probe(warm + ["heapmark"] + prog + ["heapmark"], variant="plain", heap=True)
     if hp.ended.bad or hp.steps is None or len(hp.steps) != len(warm) + len(prog) + 2:
         return engine.violation({"what": "process failure in the heap-accounting run", **hp.ended.brief()}, classes=cl, kind="crash")
     h0, h1 = hp.steps[len(warm)], hp.steps[-1]
